@@ -133,6 +133,8 @@ theorem handle_trace (app : App) (s : Slots) (r : Req) (hp : r.pathOK = true) :
         Event.routed :: (if r.route.isFound then [Event.handler] else []) else []) ++
       (ranUntilFail (enumFrom 0 app.after).reverse).map Event.after ++ tail := by
   unfold handle
+  rw [reinit_eq]
+  unfold handleFrom
   simp only [hp, Bool.not_true, Bool.false_eq_true, if_false, hookList_before, hookList_after]
   have hb := runBefore_trace (enumFrom 0 app.before) RState.init
   rcases hrb : runBefore (enumFrom 0 app.before) RState.init with ⟨st1, ev1, fl1⟩
@@ -172,6 +174,8 @@ theorem handle_events_plain (app : App) (s : Slots) (r : Req) :
   cases hp : r.pathOK with
   | false =>
     unfold handle
+    rw [reinit_eq]
+    unfold handleFrom
     simp [hp]
   | true =>
     obtain ⟨tail, ht, heq⟩ := handle_trace app s r hp
